@@ -52,6 +52,16 @@ theorem srw_declared_trailers (ops : List HOp) (v t : Bytes)
     Hdr.values (output ops).trailer t = Hdr.values (headerAtClose ops) t :=
   srw_declared_trailers_fixed ops v t hv ht hne hh hnp hc hsc
 
+/-- Known finding `C03:trailer-altered:same-name-as-header` (kernel-checked on the model, reproduced on every run
+    against the real code): a field the backend sends both as a header and, with another value, as a declared
+    trailer.  ReverseProxy hands the trailer value over by *adding* it under the same key, and `Close` takes every
+    value of a declared key, so the header's value is delivered a second time, as a trailer.  The
+    `http.ResponseWriter` interface gives the writer no way to tell the two apart (a handler may also replace the
+    value), so this is recorded, not repaired. -/
+theorem same_name_trailer_counterexample :
+    (output [.setHeader [84,114,97,105,108,101,114] [88,45,66], .setHeader [88,45,66] [104], .writeHeader 200, .write [1],
+             .addHeader [88,45,66] [116]]).trailer = [([88,45,66], [[104], [116]])] := by decide
+
 /-- Undeclared trailers (`Trailer:`-prefixed keys, how ReverseProxy passes unannounced
     trailers) are delivered as trailers too. -/
 theorem srw_undeclared_trailers (ops : List HOp) (t : Bytes) (hh : t ∉ utils_hopHeaders)
